@@ -340,3 +340,126 @@ pub fn check_scopes(n: u32) -> Result<String, String> {
     }
     Ok(format!("n={} tiles", n))
 }
+
+// ---------------------------------------------------------------------------------------------
+// C13 / C14: complete native enumeration of the finite domains (mirror of the Kani harnesses);
+// only used to produce a concrete failing input after a harness failed.
+use espada::card::{RankRange, SuitRange};
+use std::str::FromStr;
+
+const RANK_CH: [char; 13] = ['A', 'K', 'Q', 'J', 'T', '9', '8', '7', '6', '5', '4', '3', '2'];
+const SUIT_CH: [char; 4] = ['s', 'h', 'd', 'c'];
+
+fn guard<F: FnOnce() -> Result<(), String> + std::panic::UnwindSafe>(what: String, f: F) -> Result<(), String> {
+    match std::panic::catch_unwind(f) { Ok(r) => r, Err(_) => Err(format!("{}: panicked", what)) }
+}
+
+pub fn check_c13() -> Result<String, String> {
+    std::panic::set_hook(Box::new(|_| {}));
+    let mut n = 0u64;
+    for rc in 0..13usize { for sc in 0..4usize {
+        let (r, s) = (RANKS[rc], SUITS[sc]);
+        let c = Card::new(r, s);
+        n += 1;
+        guard(format!("card {}", rc * 4 + sc), move || {
+            if u8::from(&r) as usize != rc || u8::from(&s) as usize != sc { return Err(format!("code of rank {} / suit {}", rc, sc)); }
+            if char::from(&r) != RANK_CH[rc] || char::from(&s) != SUIT_CH[sc] { return Err(format!("char of rank {} / suit {}", rc, sc)); }
+            if Rank::try_from(RANK_CH[rc]) != Ok(r) || Suit::try_from(SUIT_CH[sc]) != Ok(s) { return Err(format!("try_from char of rank {} / suit {}", rc, sc)); }
+            let bit = u64::from(&c);
+            if bit != 1u64 << (4 * rc + sc) { return Err(format!("u64::from(card {}{}) = {:#x}, expected bit {}", RANK_CH[rc], SUIT_CH[sc], bit, 4 * rc + sc)); }
+            if Card::from(&bit) != c { return Err(format!("Card::from(u64::from({}{})) differs", RANK_CH[rc], SUIT_CH[sc])); }
+            let text = c.to_string();
+            if text != format!("{}{}", RANK_CH[rc], SUIT_CH[sc]) { return Err(format!("text of card is {:?}", text)); }
+            if text.parse::<Card>().ok() != Some(c) { return Err(format!("{:?} does not parse back", text)); }
+            match r.next() { Some(x) => if rc == 12 || u8::from(x) as usize != rc + 1 { return Err(format!("next of rank {}", rc)); }, None => if rc != 12 { return Err(format!("next of rank {}", rc)); } }
+            match r.prev() { Some(x) => if rc == 0 || u8::from(x) as usize + 1 != rc { return Err(format!("prev of rank {}", rc)); }, None => if rc != 0 { return Err(format!("prev of rank {}", rc)); } }
+            Ok(())
+        })?;
+        for rc2 in 0..13usize { for sc2 in 0..4usize {
+            let c2 = Card::new(RANKS[rc2], SUITS[sc2]);
+            n += 1;
+            if c.cmp(&c2) != (rc, sc).cmp(&(rc2, sc2)) || (c == c2) != ((rc, sc) == (rc2, sc2)) || (c < c2) != ((rc, sc) < (rc2, sc2)) { return Err(format!("order of {} and {}", c, c2)); }
+            if RANKS[rc].cmp(&RANKS[rc2]) != rc.cmp(&rc2) || SUITS[sc].cmp(&SUITS[sc2]) != sc.cmp(&sc2) { return Err(format!("rank/suit order {} {}", c, c2)); }
+        } }
+    } }
+    for k in 0..52u32 {
+        n += 1;
+        let bit = 1u64 << k;
+        guard(format!("bit {}", k), move || { let c = Card::from(&bit); if u64::from(&c) != bit { Err(format!("bit {} -> {} -> {:#x}", k, c, u64::from(&c))) } else { Ok(()) } })?;
+    }
+    for cp in 0..0x110000u32 {
+        if let Some(ch) = char::from_u32(cp) {
+            n += 1;
+            let rk = Rank::try_from(ch);
+            if rk.is_ok() != RANK_CH.contains(&ch) || rk.map(|r| char::from(r) != ch).unwrap_or(false) { return Err(format!("Rank::try_from({:?})", ch)); }
+            let st = Suit::try_from(ch);
+            if st.is_ok() != SUIT_CH.contains(&ch) || st.map(|s| char::from(s) != ch).unwrap_or(false) { return Err(format!("Suit::try_from({:?})", ch)); }
+        }
+    }
+    for a in 0..128u8 {
+        n += 1;
+        let s1 = String::from_utf8(vec![a]).unwrap();
+        guard(format!("parse {:?}", s1), { let s1 = s1.clone(); move || if Card::from_str(&s1).is_ok() { Err(format!("{:?} accepted as a card", s1)) } else { Ok(()) } })?;
+        for b in 0..128u8 {
+            n += 1;
+            let s2 = String::from_utf8(vec![a, b]).unwrap();
+            let want = RANK_CH.iter().position(|c| *c == a as char).zip(SUIT_CH.iter().position(|c| *c == b as char));
+            guard(format!("parse {:?}", s2), { let s2 = s2.clone(); move || {
+                let got = Card::from_str(&s2).ok().map(|c| (u8::from(c.rank()) as usize, u8::from(c.suit()) as usize));
+                if got != want { Err(format!("Card::from_str({:?}) = {:?}, expected {:?}", s2, got, want)) } else { Ok(()) }
+            } })?;
+        }
+    }
+    for a in 0..13usize { for b in a..13usize {
+        n += 1;
+        guard(format!("RankRange {}..{}", a, b), move || {
+            let v: Vec<usize> = RankRange::inclusive(RANKS[a], RANKS[b]).into_iter().map(|r| u8::from(r) as usize).collect();
+            if v != (a..=b).collect::<Vec<_>>() { return Err(format!("RankRange::inclusive({},{}) = {:?}", a, b, v)); }
+            let w: Vec<usize> = RankRange::new(RANKS[a], RANKS[b]).into_iter().map(|r| u8::from(r) as usize).collect();
+            if w != (a..b).collect::<Vec<_>>() { return Err(format!("RankRange::new({},{}) = {:?}", a, b, w)); }
+            Ok(())
+        })?;
+    } }
+    for a in 0..4usize { for b in a..4usize {
+        n += 1;
+        guard(format!("SuitRange {}..{}", a, b), move || {
+            let v: Vec<usize> = SuitRange::inclusive(SUITS[a], SUITS[b]).into_iter().map(|r| u8::from(r) as usize).collect();
+            if v != (a..=b).collect::<Vec<_>>() { return Err(format!("SuitRange::inclusive({},{}) = {:?}", a, b, v)); }
+            let w: Vec<usize> = SuitRange::new(SUITS[a], SUITS[b]).into_iter().map(|r| u8::from(r) as usize).collect();
+            if w != (a..b).collect::<Vec<_>>() { return Err(format!("SuitRange::new({},{}) = {:?}", a, b, w)); }
+            Ok(())
+        })?;
+    } }
+    let all: Vec<usize> = RankRange::all().into_iter().map(|r| u8::from(r) as usize).collect();
+    if all != (0..13).collect::<Vec<_>>() { return Err(format!("RankRange::all() = {:?}", all)); }
+    let alls: Vec<usize> = SuitRange::all().into_iter().map(|r| u8::from(r) as usize).collect();
+    if alls != (0..4).collect::<Vec<_>>() { return Err(format!("SuitRange::all() = {:?}", alls)); }
+    Ok(format!("{} cases", n))
+}
+
+pub fn check_c14() -> Result<String, String> {
+    std::panic::set_hook(Box::new(|_| {}));
+    let mut n = 0u64;
+    for x in 0..52usize { for y in 0..52usize {
+        n += 1;
+        let (a, b) = (card(x), card(y));
+        guard(format!("pair {} {}", a, b), move || {
+            let (p, q) = (CardPair::new(a, b), CardPair::new(b, a));
+            if p != q { return Err(format!("new({},{}) != new({},{})", a, b, b, a)); }
+            if p[0] > p[1] { return Err(format!("new({},{}) is not ordered", a, b)); }
+            if !((p[0] == a && p[1] == b) || (p[0] == b && p[1] == a)) { return Err(format!("new({},{}) holds other cards", a, b)); }
+            if fxhash::hash64(&p) != fxhash::hash64(&q) { return Err(format!("hash of new({},{}) and new({},{}) differ", a, b, b, a)); }
+            if a != b {
+                let t = p.to_string();
+                if t.parse::<CardPair>().ok() != Some(p) { return Err(format!("{:?} does not parse back to the pair", t)); }
+            }
+            let (t1, t2) = (format!("{}{}", a, b), format!("{}{}", b, a));
+            match (t1.parse::<CardPair>(), t2.parse::<CardPair>()) {
+                (Ok(u), Ok(v)) => if u != v || u != p { return Err(format!("{:?} and {:?} parse to different pairs", t1, t2)); },
+                _ => return Err(format!("{:?} or {:?} does not parse", t1, t2)),
+            }
+            Ok(())
+        })?;
+    } }
+    Ok(format!("{} cases", n))
+}
